@@ -198,6 +198,8 @@ func isBytesLike(t types.Type) bool {
 
 type Engine struct {
 	prog      *ssa.Program
+	iterPosObjs map[int]bool // heap objects holding the position of a store iterator
+	mapVisited  map[int]int  // map heap object -> heap object of the visited-key set of the latest range over it
 	nFresh    int
 	decls     []string          // declare-const / declare-fun lines in creation order
 	declSet   map[string]bool   // names
